@@ -1,11 +1,13 @@
 SPECIFICATION Spec
-CONSTANTS MaxTrys = 3  Sending = TRUE  MaxRx = 4
+CONSTANTS MaxTrys = 3  Sending = TRUE  MaxRx = 4  MaxEpochs = 2  StrictInactive = FALSE
 INVARIANT TypeOK
 INVARIANT MadeAtMostOnce
 INVARIANT IdIsTheEchoes
 INVARIANT ReportedIdStable
 INVARIANT SigBudget
 INVARIANT DeliveredIsPrefix
+INVARIANT NoEscape
+INVARIANT CtxTracksConnection
 PROPERTY EventuallyMade
 PROPERTY EventuallyAllDelivered
 CHECK_DEADLOCK FALSE
